@@ -516,7 +516,11 @@ def run_print(prop, tier, seed, t0):
             n += 1
             if x['id'] < 0:
                 pre, val, suf = _EMB[x['id']]
-                g.write(json.dumps(dict(id=x['id'], kind='embed', pre=pre, val=val, suf=suf, out=x['out'])) + '\n')
+                out = x['out']
+                if not out.startswith(pre):      # the report / trace wording differs from the one known here: judge the printed value only
+                    cut = out.rfind('== ')
+                    pre, out = '', (out[cut + 3:] if cut >= 0 else out)
+                g.write(json.dumps(dict(id=x['id'], kind='embed', pre=pre, val=val, suf=suf, out=out)) + '\n')
             else:
                 g.write(json.dumps(dict(id=x['id'], kind='print', val=cat[x['id']]['val'], before=x['before'], after=x['after'],
                                         out=x['out'], bytes=x['bytes'])) + '\n')
